@@ -87,6 +87,18 @@ func screenMethods() []screenMethod {
 	}
 }
 
+// simMethods: the SimulationScreen's own calls (tests drive them from their goroutine while the code under test draws)
+func simMethods() []screenMethod {
+	sim := func(s tcell.Screen) tcell.SimulationScreen { return s.(tcell.SimulationScreen) }
+	return []screenMethod{
+		{"GetContents", func(s tcell.Screen, i int) { sim(s).GetContents() }},
+		{"GetCursor", func(s tcell.Screen, i int) { sim(s).GetCursor() }},
+		{"InjectKey", func(s tcell.Screen, i int) { sim(s).InjectKey(tcell.KeyRune, rune('a'+i%26), tcell.ModNone) }},
+		{"InjectKeyBytes", func(s tcell.Screen, i int) { sim(s).InjectKeyBytes([]byte{'x', 0xe9}[:1+i%2]) }},
+		{"InjectMouse", func(s tcell.Screen, i int) { sim(s).InjectMouse(i%9, i%3, tcell.Button1, tcell.ModNone) }},
+	}
+}
+
 func raceMain(args []string) error {
 	fs := flag.NewFlagSet("race", flag.ExitOnError)
 	out := fs.String("out", "trace.ndjson", "trace file")
@@ -97,6 +109,7 @@ func raceMain(args []string) error {
 	pairsel := fs.String("pairs", "", "only pairs a:b,c:d (race mode)")
 	startAt := fs.Int("start", 0, "skip the first N pairs (race mode; used to resume after a fatal runtime error)")
 	stride := fs.Int("stride", 1, "run every stride-th pair (race mode)")
+	kind := fs.String("screen", "tty", "tty (terminfo screen on a fake tty) | sim (SimulationScreen), race mode")
 	fs.Parse(args)
 	encoding.Register()
 	if *charset == "UTF-8" {
@@ -116,6 +129,9 @@ func raceMain(args []string) error {
 		mu.Unlock()
 	}
 	methods := screenMethods()
+	if *kind == "sim" {
+		methods = append(methods, simMethods()...)
+	}
 	ops := 0
 	if *mode == "lock" {
 		for _, term := range []string{"xterm-256color", "vt100", "linux"} {
@@ -189,14 +205,28 @@ func raceMain(args []string) error {
 					continue
 				}
 				fmt.Fprintf(os.Stderr, "@@IDX %d\n", pairIdx)
-				ti := *terminfo.VerifEntry("xterm-256color")
-				ftty := faketty.New(10, 4)
-				s, err := tcell.NewTerminfoScreenFromTtyTerminfo(ftty, &ti)
-				if err != nil {
-					return err
+				var s tcell.Screen
+				var ftty *faketty.Tty
+				if *kind == "sim" {
+					ss := tcell.NewSimulationScreen(*charset)
+					if ss == nil {
+						return fmt.Errorf("no simulation screen for charset %s", *charset)
+					}
+					s = ss
+				} else {
+					ti := *terminfo.VerifEntry("xterm-256color")
+					ftty = faketty.New(10, 4)
+					var err error
+					s, err = tcell.NewTerminfoScreenFromTtyTerminfo(ftty, &ti)
+					if err != nil {
+						return err
+					}
 				}
 				if err := s.Init(); err != nil {
 					return err
+				}
+				if *kind == "sim" {
+					s.SetSize(10, 4)
 				}
 				fmt.Fprintf(os.Stderr, "@@PAIR %s\n", pair)
 				var wg sync.WaitGroup
@@ -233,6 +263,10 @@ func raceMain(args []string) error {
 						case <-stop:
 							return
 						default:
+						}
+						if ftty == nil { // the simulator has no tty: its input side is the test's own calls (pair methods)
+							time.Sleep(200 * time.Microsecond)
+							continue
 						}
 						ftty.Inject([]byte("x\x1b[<0;2;2M"))
 						if i%4 == 0 {
